@@ -1,60 +1,113 @@
 /-! # The recomposer's registry and "types registered beforehand" (C08, model level)
 
-`alt.(*Recomposer).registerComposer` registers a struct type and walks its exported fields: a field
-that holds a struct type — directly, or as the element of ONE container (pointer, slice, map, array)
-— gets that type registered too, so that a later `Recompose`, possibly on many goroutines at once,
-only READS `r.composers`. A type that is reached while a value is filled and is not in the registry
-is registered on the fly (`recomp` calls `registerComposer`): an unsynchronised write.
+`alt.(*Recomposer).registerComposer` registers a struct type and walks its exported fields: the
+struct type a field holds — directly or inside containers (pointer, slice, map, array) — is
+registered too, so that a later `Recompose`, possibly on many goroutines at once, only READS
+`r.composers`. A type that is reached while a value is filled and is not in the registry is
+registered on the fly (`recomp` calls `registerComposer`): an unsynchronised write.
 
-The model is one level deep (the struct types held by the fields have no struct fields of their
-own): that is the step the walk repeats. Which container kinds the walk follows is a parameter; the
-generated fact is `Gen.ReuseFacts.recomposerWalkKinds`. -/
+A field is modelled by the PATH of container kinds from the field type down to the struct type
+(`[]` = the struct type itself, `[slice, slice]` = `[][]T`, `[ptr, array]` = `*[2]T`). The walk takes
+the element type of a container whose kind it follows — once (`loops = false`: the code as it
+is) or until the type is no container (`loops = true`); the recursive call then dereferences one
+leading pointer (`if rt.Kind() == reflect.Ptr { rt = rt.Elem() }`) and must be at a struct type.
+Types held by the fields have no struct fields of their own here: one application of the walk,
+which is the step registration repeats. -/
 namespace OjgVerif.Reuse.Reg
 
-/-- how a field holds a struct type -/
-inductive FKind where
-  | plain | ptr | slice | map | array
+/-- container kinds -/
+inductive CKind where
+  | ptr | slice | map | array
   deriving DecidableEq, Repr
 
-def FKind.all : List FKind := [.plain, .ptr, .slice, .map, .array]
+def CKind.all : List CKind := [.ptr, .slice, .map, .array]
 
-/-- the `reflect.Kind` name of the container (none for a field of the struct type itself) -/
-def FKind.goName : FKind → Option String
-  | .plain => none
-  | .ptr => some "Ptr"
-  | .slice => some "Slice"
-  | .map => some "Map"
-  | .array => some "Array"
+def CKind.goName : CKind → String
+  | .ptr => "Ptr"
+  | .slice => "Slice"
+  | .map => "Map"
+  | .array => "Array"
 
-/-- a struct type: its id and, per exported field that holds a struct type, how and which -/
+/-- a struct type: its id and, per exported field that holds a struct type, the container path and that type -/
 structure TyDecl where
   id : Nat
-  fields : List (FKind × Nat)
+  fields : List (List CKind × Nat)
 
-/-- `registerComposer t`: the type itself and the types of the fields the walk follows -/
-def register (follows : FKind → Bool) (reg : List Nat) (t : TyDecl) : List Nat :=
-  t.id :: ((t.fields.filter fun f => follows f.1).map (·.2)) ++ reg
+/-- what is left of the path after the walk's step(s) -/
+def afterWalk (follows : CKind → Bool) (loops : Bool) (p : List CKind) : List CKind :=
+  if loops then p.dropWhile follows
+  else match p with
+    | k :: r => if follows k then r else p
+    | [] => []
+
+/-- the walk registers the struct type at the end of path `p` -/
+def reaches (follows : CKind → Bool) (loops : Bool) (p : List CKind) : Bool :=
+  afterWalk follows loops p == [] || afterWalk follows loops p == [.ptr]
+
+/-- `registerComposer t`: the type itself and the types the walk reaches -/
+def register (follows : CKind → Bool) (loops : Bool) (reg : List Nat) (t : TyDecl) : List Nat :=
+  t.id :: ((t.fields.filter fun f => reaches follows loops f.1).map (·.2)) ++ reg
 
 /-- the types `recomp` registers on the fly while it fills a value of type `t`: registry writes
 during `Recompose` -/
 def lazyWrites (reg : List Nat) (t : TyDecl) : List Nat :=
   (t.fields.map (·.2)).filter fun u => !reg.contains u
 
-/-- the walk follows every kind: after registering `t`, recomposing a `t` writes nothing -/
-theorem closed_of_follows (follows : FKind → Bool) (h : ∀ k, follows k = true) (reg : List Nat) (t : TyDecl) :
-    lazyWrites (register follows reg t) t = [] := by
+theorem closed_of_reaches (follows : CKind → Bool) (loops : Bool) (reg : List Nat) (t : TyDecl)
+    (h : ∀ f ∈ t.fields, reaches follows loops f.1 = true) :
+    lazyWrites (register follows loops reg t) t = [] := by
   unfold lazyWrites register
   rw [List.filter_eq_nil_iff]
   intro u hu
   obtain ⟨f, hf, rfl⟩ := List.mem_map.mp hu
   simp only [Bool.not_eq_true, Bool.not_eq_false', List.contains_eq_mem, decide_eq_true_eq]
   refine List.mem_cons_of_mem _ (List.mem_append_left _ ?_)
-  exact List.mem_map.mpr ⟨f, List.mem_filter.mpr ⟨hf, h f.1⟩, rfl⟩
+  exact List.mem_map.mpr ⟨f, List.mem_filter.mpr ⟨hf, h f hf⟩, rfl⟩
 
-/-- a kind the walk does not follow: a type with one such field is not closed under registration —
-the first `Recompose` calls write the registry -/
-theorem not_closed_of_skips (follows : FKind → Bool) (k : FKind) (h : follows k = false) :
-    lazyWrites (register follows [] ⟨0, [(k, 1)]⟩) ⟨0, [(k, 1)]⟩ = [1] := by
-  simp [lazyWrites, register, h]
+theorem dropWhile_all (follows : CKind → Bool) (h : ∀ k, follows k = true) (p : List CKind) :
+    p.dropWhile follows = [] := by
+  induction p with
+  | nil => rfl
+  | cons k r ih => simp [List.dropWhile, h k, ih]
+
+/-- repeated walk over all kinds: every path is reached -/
+theorem reaches_loop (follows : CKind → Bool) (h : ∀ k, follows k = true) (p : List CKind) :
+    reaches follows true p = true := by
+  simp [reaches, afterWalk, dropWhile_all follows h p]
+
+/-- single step over all kinds: paths of at most one container are reached, with either walk -/
+theorem reaches_short (follows : CKind → Bool) (h : ∀ k, follows k = true) (loops : Bool) (p : List CKind)
+    (hp : p.length ≤ 1) : reaches follows loops p = true := by
+  cases loops
+  · match p, hp with
+    | [], _ => rfl
+    | [k], _ => simp [reaches, afterWalk, h k]
+  · exact reaches_loop follows h p
+
+/-- **repaired walk**: after registering `t`, recomposing a `t` writes nothing, whatever containers
+its fields nest -/
+theorem closed_loop (follows : CKind → Bool) (h : ∀ k, follows k = true) (reg : List Nat) (t : TyDecl) :
+    lazyWrites (register follows true reg t) t = [] :=
+  closed_of_reaches follows true reg t fun f _ => reaches_loop follows h f.1
+
+/-- **the walk as it is**: the same for types whose fields hold struct types behind at most one container -/
+theorem closed_one_level (follows : CKind → Bool) (h : ∀ k, follows k = true) (loops : Bool) (reg : List Nat)
+    (t : TyDecl) (ht : ∀ f ∈ t.fields, f.1.length ≤ 1) :
+    lazyWrites (register follows loops reg t) t = [] :=
+  closed_of_reaches follows loops reg t fun f hf => reaches_short follows h loops f.1 (ht f hf)
+
+/-- a single step does not close registration over containers of containers: `[][]T` -/
+theorem one_level_not_closed (follows : CKind → Bool) (h : ∀ k, follows k = true) :
+    lazyWrites (register follows false [] ⟨0, [([.slice, .slice], 1)]⟩) ⟨0, [([.slice, .slice], 1)]⟩ = [1] := by
+  simp [lazyWrites, register, reaches, afterWalk, h]
+
+/-- the shortest path that needs kind `k` to be followed (a single leading pointer is dereferenced by
+the recursive call whether or not the walk follows pointers) -/
+def needs (k : CKind) : List CKind := if k = .ptr then [.ptr, .ptr] else [k]
+
+/-- a kind the walk does not follow: a type with one such field is not closed under registration -/
+theorem not_closed_of_skips (follows : CKind → Bool) (loops : Bool) (k : CKind) (h : follows k = false) :
+    lazyWrites (register follows loops [] ⟨0, [(needs k, 1)]⟩) ⟨0, [(needs k, 1)]⟩ = [1] := by
+  cases loops <;> cases k <;> simp [lazyWrites, register, reaches, afterWalk, needs, h, List.dropWhile]
 
 end OjgVerif.Reuse.Reg
